@@ -1,32 +1,24 @@
-(* C04 greedy clause under BreakPolicy Never, and the width bound without the iterator hypothesis WI for that policy.
-   Under Never the grapheme loop is never entered, so WrapNextLine never returns a live nil line (finding F37 needs the
-   grapheme fallback) and the invariant "no valid UAX #14 boundary beyond the line start has been consumed" (WI of
-   Proofs/WrapWidth.v) is kept by every call.  Ingredients:
+(* C04 greedy clause under BreakPolicy Never (the width bound for that policy is now the special case of the general one of
+   Proofs/WrapValid.v).
+   Under Never the grapheme loop is never entered and the invariant "no valid UAX #14 boundary beyond the line start has
+   been consumed" (WI of Proofs/WrapWidth.v) is kept by every call.  Ingredients:
    - an upper bound for the width the wrapper measures (WU): the recorded advance of the collected runs is at most the sum
-     of their glyph advances ON THE ENTRY STORE of the call (input runs carry Advance = sum there, cut runs are recomputed
-     on a store that only lost advance), so a candidate measured wider than maxWidth is wider than maxWidth by
+     of their glyph advances ON THE ENTRY STORE of the call (whole runs and cut runs are recomputed on a store that only
+     lost advance since the entry), so a candidate measured wider than maxWidth is wider than maxWidth by
      Spec/Wrap.v line_measure on the entry store;
    - an invariant over the line iterator (Ng): every valid UAX #14 boundary beyond the best line is still ahead of the
      iterator or pending re-issue - through the UAX #14 loop, for a best line that advances with every fitting option. *)
 From TV Require Import Model.Wrap Spec.Wrap Spec.WrapCut Spec.WrapGreedy Proofs.Wrap Proofs.WrapCut Proofs.WrapLines Proofs.WrapTotal
-  Proofs.WrapStore Proofs.WrapMand Proofs.WrapMand2 Proofs.WrapWidth.
+  Proofs.WrapStore Proofs.WrapMand Proofs.WrapMand2 Proofs.WrapWidth Proofs.WrapValid.
 
 Section Greedy.
 Variables (n : Z) (attrs : list Z) (st0 : store) (rs : list out).
 
-(* the input runs carry Advance = sum of their glyph advances on the entry store *)
-Definition RE : Prop := SG st0 /\ Forall (fun r => o_adv r = sum_adv (out_glyphs st0 r)) rs.
+(* the sign hypothesis on the entry store (the input runs' own Advance is not read: a run placed whole has its advance
+   recomputed from the glyphs) *)
+Definition RE : Prop := SG st0.
 Definition WU (w : W) : Prop :=
   SG (w_st w) /\ st_le st0 (w_st w) /\ s_alt_adv (w_sc w) <= rsum st0 (s_alt (w_sc w)).
-
-Lemma RE_znth : RE -> forall i, o_adv (znth out_zero rs i) = sum_adv (out_glyphs st0 (znth out_zero rs i)).
-Proof.
-  intros R i. assert (Z0 : o_adv out_zero = sum_adv (out_glyphs st0 out_zero)).
-  { unfold out_glyphs, src_array, znth; cbn. reflexivity. }
-  unfold znth. destruct (i <? 0); [exact Z0|]. destruct (nth_in_or_default (Z.to_nat i) rs out_zero) as [H|H].
-  - destruct R as [_ R]. rewrite Forall_forall in R. apply R; exact H.
-  - rewrite H. exact Z0.
-Qed.
 
 Lemma fill_until_U : RE -> forall fuel w b w', w_runs w = rs -> WU w -> fill_until fuel w b = Ok w' -> WU w'.
 Proof.
@@ -50,10 +42,10 @@ Proof.
       destruct w; unfold WU; cbn -[rsum sum_adv out_glyphs] in *. split; [exact S1|]. split; [exact L2|].
       rewrite rsum_app. unfold rsum at 2. cbn [fold_right]. lia.
     + cbn [bind fst snd] in H.
-      apply (IH (iter_advance (cand_append w run)) b w'); [destruct w; exact Hr| |exact H].
-      pose proof (RE_znth HRE (w_idx w)) as Q. rewrite <- Hr, <- Hrun in Q.
-      destruct w; unfold WU; cbn -[rsum sum_adv out_glyphs] in *. split; [exact HS|]. split; [exact HL|].
-      rewrite rsum_app. unfold rsum at 2. cbn [fold_right]. lia.
+      apply (IH (iter_advance (cand_append w (recompute_advance (w_st w) run))) b w'); [destruct w; exact Hr| |exact H].
+      pose proof (sum_le _ _ (st_le_glyphs _ _ run HL)) as Q.
+      destruct w; unfold WU; cbn -[rsum sum_adv out_glyphs recompute_advance] in *. split; [exact HS|]. split; [exact HL|].
+      rewrite rsum_app. unfold rsum at 2. cbn [fold_right]. unfold recompute_advance, set_adv, out_glyphs in *. cbn in *. lia.
 Qed.
 
 Lemma pbo_U : RE -> forall w opt lc w' r cand, w_runs w = rs -> WU w -> process_break_option w opt lc = Ok (w', r, cand) ->
@@ -222,28 +214,33 @@ Proof.
                   /\ snd (b_unusedW (w_br (mark_best w3 [cand]))) = snd opt).
   { intros Hr. destruct (Best1 Hr) as (_ & _ & BE4). rewrite M2, F3b, BE4. split; [exact FW|]. split; [lia|]. rewrite <- X1. reflexivity. }
   destruct r.
-  - (* BreakInvalid *)
-    assert (E : PostN lc (c_dir (w_cfg (restore w3))) (w_start (restore w3)) w' d).
-    { apply (IH (restore w3) lc w' d).
-      + apply JT_restore; exact P3.
-      + unfold OrdO. rewrite R1, R2, R3, F3v, F3s, F3b, FW. intros Hne. destruct (HO Hne) as [O1 O2]. fold b in O1. split; [lia|reflexivity].
-      + apply XI_restore; exact XC3.
-      + destruct HK3 as (K1 & K2 & K3). split; [destruct w3; exact K1|]. split; [destruct w3; exact K2|]. rewrite R2. exact K3.
+  - (* BreakInvalid: the option is discarded *)
+    cbv beta iota zeta in H. rewrite R2, F3b in H.
+    destruct (set_br_proj (restore w3) (discard_word b1)) as (D1 & D2 & D3 & D4 & D5).
+    set (wd := set_br (restore w3) (discard_word b1)) in *.
+    assert (E : PostN lc (c_dir (w_cfg wd)) (w_start wd) w' d).
+    { apply (IH wd lc w' d).
+      + apply JT_set_br; [apply JT_restore; exact P3|apply Bk_discard; assumption].
+      + unfold OrdO. rewrite D1, D2, D3, R1, R3, F3v, F3s. cbn [discard_word b_unusedW b_isUnusedW]. rewrite FW.
+        intros Hne. destruct (HO Hne) as [O1 O2]. fold b in O1, O2.
+        destruct (b_isUnusedW b) eqn:FB; [cbn in O2; lia|]. rewrite (X9 eq_refl). split; [exact O1|reflexivity].
+      + apply XI_set_br. apply XI_restore; exact XC3.
+      + destruct HK3 as (K1 & K2 & K3). split; [unfold wd; destruct w3; exact K1|]. split; [unfold wd; destruct w3; exact K2|]. rewrite D2. cbn. rewrite <- F3b. exact K3.
       + intros HRE. destruct (PU HRE) as ((U1 & U2 & _) & _). specialize (WS2 HRE). unfold WU.
-        replace (w_st (restore w3)) with (w_st w3) by (destruct w3; reflexivity).
-        replace (s_alt_adv (w_sc (restore w3))) with (s_save_adv (w_sc w3)) by (destruct w3; reflexivity).
-        rewrite R1, Sf1, Sf2. split; [exact U1|]. split; [exact U2|exact WS2].
-      + intros p Hp Hv. rewrite best_end_restore, BE3 in Hp. rewrite R2, F3b. left.
+        replace (w_st wd) with (w_st w3) by (unfold wd; destruct w3; reflexivity).
+        replace (s_alt_adv (w_sc wd)) with (s_save_adv (w_sc w3)) by (unfold wd; destruct w3; reflexivity).
+        rewrite D1, R1, Sf1, Sf2. split; [exact U1|]. split; [exact U2|exact WS2].
+      + intros p Hp Hv. unfold wd in Hp. rewrite best_end_set_br, best_end_restore, BE3 in Hp. rewrite D2. unfold U. cbn [discard_word b_wpos b_isUnusedW]. left.
         destruct (NU p Hp Hv) as [Q1' Q2']. apply Q2'. intros ->.
         destruct (HBIr eq_refl) as [Q|Q].
         * rewrite Q3 in Q. pose proof (best_end_ge n w (proj1 HT)). lia.
         * apply Q. destruct HK as (K1 & K2 & _). rewrite (proj2 Cf2), K2. apply (CBall_sk st0); [rewrite St2; symmetry; exact K1|exact (proj2 Hv)].
-      + rewrite (policy_never_cfg w3 (restore w3)); [exact Pol3|destruct w3; reflexivity].
-      + intros _. rewrite R2, F3b. exact FW.
-      + rewrite best_end_restore, BE3, R3, F3s, R2, F3b. lia.
+      + rewrite (policy_never_cfg w3 wd); [exact Pol3|unfold wd; destruct w3; reflexivity].
+      + intros _. rewrite D2. cbn. exact FW.
+      + unfold wd. rewrite best_end_set_br, best_end_restore, BE3. fold wd. rewrite D3, R3, F3s, D2. cbn [discard_word b_wpos]. lia.
       + exact H. }
-    replace (c_dir (w_cfg (restore w3))) with (c_dir (w_cfg w)) in E by (rewrite <- F3c; destruct w3; reflexivity).
-    rewrite R3, F3s in E. exact E.
+    replace (c_dir (w_cfg wd)) with (c_dir (w_cfg w)) in E by (rewrite <- F3c; unfold wd; destruct w3; reflexivity).
+    rewrite D3, R3, F3s in E. exact E.
   - (* EndLine *) inversion H; subst w' d. intros Q; discriminate Q.
   - (* Truncated *)
     assert (Pt : policy_never (if has_best w3 then w3 else mark_best (restore w3) []) = true).
@@ -335,7 +332,7 @@ Lemma wnl_never : forall n attrs w mw w' wl d,
   /\ (b_isUnusedW (w_br w') = true ->
         wl_next wl < b_wpos (w_br w')
         /\ (forall p, wl_next wl < p < b_wpos (w_br w') -> lbV attrs (w_st w) (w_runs w) p -> False)
-        /\ (RE (w_st w) (w_runs w) -> Rejected (w_st w) (w_runs w) mw (c_dir (w_cfg w)) (w_start w) (b_wpos (w_br w')))).
+        /\ (RE (w_st w) -> Rejected (w_st w) (w_runs w) mw (c_dir (w_cfg w)) (w_start w) (b_wpos (w_br w')))).
 Proof.
   intros n attrs w mw w' wl d HBI HC HB Hm HWI Hpol H Hd. subst d.
   pose proof (wrap_next_line_safe n attrs w mw HC HB) as SF. rewrite H in SF. destruct SF as (_ & Sk' & Rn' & _).
@@ -350,7 +347,7 @@ Proof.
   assert (PN : PostN attrs (w_st w) (w_runs w) lc (c_dir (w_cfg (start_line w))) (w_start (start_line w)) w2 d2).
   { apply (outer_N n attrs (w_st w) (w_runs w) HBI (loop_fuel (start_line w)) (start_line w) lc w2 d2 T0 O0 X0); [| | | | | |exact OL].
     - split; [destruct w; reflexivity|]. split; [destruct w; reflexivity|exact A0].
-    - intros [HS _]. unfold WU. destruct w; cbn. split; [exact HS|]. split; [apply st_le_refl|lia].
+    - intros HS. unfold RE in HS. unfold WU. destruct w; cbn. split; [exact HS|]. split; [apply st_le_refl|lia].
     - intros p Hp [Hv1 Hv2]. replace (w_br (start_line w)) with (w_br w) by (destruct w; reflexivity).
       apply HWI; [|exact Hv1|exact Hv2]. unfold best_end in Hp. replace (s_best (w_sc (start_line w))) with (@None (list out)) in Hp by (destruct w; reflexivity).
       replace (w_start (start_line w)) with (w_start w) in Hp by (destruct w; reflexivity). exact Hp.
@@ -433,34 +430,29 @@ Lemma width_bound_never_calls : forall n w cfg attrs runs widths wk rs mw w' wl 
   wf_runs (w_st w) runs n = true -> zlen attrs - 1 = n -> 1 <= n -> c_policy cfg = 1 ->
   run_calls (prepare w cfg attrs runs 0 0) widths = Ok (wk, rs) -> w_more wk = true ->
   zlen runs <= o_src (c_truncator (w_cfg wk)) ->
-  nonneg_adv (w_st wk) = true -> adv_consistent (w_st wk) runs = true ->
+  nonneg_adv (w_st wk) = true ->
   wrap_next_line wk mw = Ok (w', wl, d) -> wl_line wl = Some line ->
   let tsrc := o_src (c_truncator (w_cfg wk)) in
   let m := ceil26 (line_measure (w_st w') tsrc (c_dir (w_cfg wk)) line) in
   (has_truncator tsrc line = true -> w_start wk = wl_next wl \/ m <= mw - ceil26 (o_adv (c_truncator (w_cfg wk))))
   /\ (has_truncator tsrc line = false -> m <= mw \/ single_unit attrs (w_st wk) runs n 1 (w_start wk) (wl_next wl) = true).
 Proof.
-  intros n w cfg attrs runs widths wk rs mw w' wl d line HW Ha Hn Hp RC Hk Hts Hnn Hac WN Hl.
+  intros n w cfg attrs runs widths wk rs mw w' wl d line HW Ha Hn Hp RC Hk Hts Hnn WN Hl.
   destruct (never_reach n w cfg attrs runs widths wk rs HW Ha Hn Hp RC Hk) as (C & B & R & WIk & Pk).
-  pose proof (wnl_width n attrs wk mw w' wl d line (HBI_all n) C B Hk (nonneg_SG _ Hnn)
-                ltac:(rewrite R; apply adv_consistent_RA; exact Hac) WIk ltac:(rewrite R; exact Hts) WN Hl) as Q.
-  unfold width_stmt in Q. cbv zeta in Q. rewrite R in Q. destruct Q as [Q1 Q2]. cbv zeta. split; [exact Q1|].
-  intros Ht. destruct (Q2 Ht) as [Q|Q]; [left; exact Q|right].
-  destruct (wrap_next_line_J n attrs wk mw w' wl d C Hk WN) as ((LR & _) & _).
-  apply never_single_unit; [lia|]. intros p Hp' Hlb Hcb. apply (Q p Hp' Hlb).
-  destruct B as (BW & _). rewrite R in BW. eapply cluster_boundary_CBall; eauto.
+  pose proof (width_bound_calls_all n w cfg attrs runs widths wk rs mw w' wl d line HW Ha Hn RC Hk Hts Hnn WN Hl) as Q.
+  unfold width_bound_stmt in Q. cbv zeta in Q. rewrite Pk in Q. exact Q.
 Qed.
 
 Lemma greedy_never_calls : forall n w cfg attrs runs widths wk rs mw w' wl,
   wf_runs (w_st w) runs n = true -> zlen attrs - 1 = n -> 1 <= n -> c_policy cfg = 1 ->
   run_calls (prepare w cfg attrs runs 0 0) widths = Ok (wk, rs) -> w_more wk = true ->
-  nonneg_adv (w_st wk) = true -> adv_consistent (w_st wk) runs = true ->
+  nonneg_adv (w_st wk) = true ->
   wrap_next_line wk mw = Ok (w', wl, false) ->
   (exists line, wl_line wl = Some line)
   /\ greedy_never_stmt attrs (w_st wk) runs (c_dir (w_cfg wk)) (w_start wk) (wl_next wl) mw
        (b_isUnusedW (w_br w')) (b_wpos (w_br w')) (snd (b_unusedW (w_br w'))).
 Proof.
-  intros n w cfg attrs runs widths wk rs mw w' wl HW Ha Hn Hp RC Hk Hnn Hac WN.
+  intros n w cfg attrs runs widths wk rs mw w' wl HW Ha Hn Hp RC Hk Hnn WN.
   destruct (never_reach n w cfg attrs runs widths wk rs HW Ha Hn Hp RC Hk) as (C & B & R & WIk & Pk).
   destruct (wnl_never n attrs wk mw w' wl false (HBI_all n) C B Hk WIk Pk WN eq_refl) as (_ & _ & HL & HA & HB).
   rewrite R in HA, HB. split; [exact HL|].
@@ -470,8 +462,7 @@ Proof.
   - intros Hu. destruct (HA Hu) as [A1 A2]. split; [exact A1|]. destruct A2 as [A2|A2]; [left; exact A2|right].
     intros p Hp' Hv. exact (A2 p Hp' (V p Hv)).
   - intros Hu. destruct (HB Hu) as (B1 & B2 & B3). split; [exact B1|]. split; [intros p Hp' Hv; exact (B2 p Hp' (V p Hv))|].
-    apply Rejected_too_wide. apply B3. split; [apply nonneg_SG; exact Hnn|].
-    unfold adv_consistent in Hac. rewrite forallb_forall in Hac. apply Forall_forall. intros r Hr. apply Z.eqb_eq. apply Hac. exact Hr.
+    apply Rejected_too_wide. apply B3. apply nonneg_SG; exact Hnn.
 Qed.
 
 (* ---- under policy Never no call returns a nil line while the wrapper stays live (the pattern of F37) -------------- *)
